@@ -132,3 +132,22 @@ Definition check_591 (fs : list field) : verdict :=
          (expect 2 (first_empty (Z.to_nat N) occ N (key mod N) =? slot) [FZ (first_empty (Z.to_nat N) occ N (key mod N))])
   | _ => VBad 99 []
   end.
+
+(* ------------------------------------------------------------------ SkipGo, fixed-size fast paths (count x width handed to skipn) *)
+From DG Require Gen_thriftskipfast.
+Definition fast_amount (r : Z * list (Z * list Z)) : Z := match snd r with [(_, [n])] => n | _ => -1 end.
+(* 694 / 193 fields: kind (0 list/set, 1 map), element (key) type, value type, declared count (int32), bytes after the header,
+                    SkipGo error (0 nil), p.Read afterwards.  Only emitted for fixed-size element types and count >= 0. *)
+Definition check_skipfast (fs : list field) : verdict :=
+  match fs with
+  | [FZ kind; FZ kt; FZ vt; FZ sz; FZ payload; FZ err; FZ rd'] =>
+    let hdr := if kind =? 0 then 5 else 6 in
+    let n := if kind =? 0 then fast_amount (Gen_thriftskipfast.SkipGo_list_fast kt sz)
+             else fast_amount (Gen_thriftskipfast.SkipGo_map_fast sz (Gen_thriftskipfast.typeSize kt) (Gen_thriftskipfast.typeSize vt)) in
+    let m := if kind =? 0 then sz * ThriftWire.fixed_size kt else sz * (ThriftWire.fixed_size kt + ThriftWire.fixed_size vt) in
+    let expd := fun amount => if amount >? payload then (err =? 1) && (rd' =? hdr) else (err =? 0) && (rd' =? hdr + amount) in
+    vand (expect 1 (expd n) [FZ n]) (expect 2 (expd m) [FZ m])
+  | _ => VBad 99 []
+  end.
+Definition check_694 (fs : list field) : verdict := check_skipfast fs.
+Definition check_193 (fs : list field) : verdict := check_skipfast fs.
